@@ -398,29 +398,173 @@ theorem step_good {w : W} {rs rs' : Option Nat} {wr sent : Bytes} {fails : Nat} 
     | write _ => simp [clientStep] at hc
     | net _ => simp [clientStep] at hc
 
-theorem run_good (ops : List WOp) : ∀ {w : W} {rs : Option Nat} {wr sent : Bytes} {fails : Nat},
-    Good w rs wr sent fails → clientOK rs ops = true → transportOK w ops →
-    ∃ w' outs rs', run w ops = .ok (w', outs) ∧
+theorem run_good (ops : List WOp) : ∀ {w : W} {rs rs' : Option Nat} {wr sent : Bytes} {fails : Nat},
+    Good w rs wr sent fails → clientRun rs ops = some rs' → transportOK w ops →
+    ∃ w' outs, run w ops = .ok (w', outs) ∧
       Good w' rs' (wr ++ writesOf ops) (sent ++ sentOf outs) (fails + failcbsOf outs) ∧
       w'.failed = (w.failed || hasFail ops) := by
   induction ops with
   | nil =>
-    intro w rs wr sent fails g _ _
-    exact ⟨w, [], rs, rfl, by simpa [writesOf, sentOf, failcbsOf] using g, by simp [hasFail]⟩
+    intro w rs rs' wr sent fails g hc _
+    simp only [clientRun, Option.some.injEq] at hc
+    subst hc
+    exact ⟨w, [], rfl, by simpa [writesOf, sentOf, failcbsOf] using g, by simp [hasFail]⟩
   | cons op ops ih =>
-    intro w rs wr sent fails g hc ht
-    simp only [clientOK] at hc
+    intro w rs rs' wr sent fails g hc ht
+    simp only [clientRun] at hc
     split at hc
     · rename_i rs1 hcs
       obtain ⟨hf, hnext⟩ := ht
       obtain ⟨w1, o, e1, g1, f1⟩ := step_good g hcs hf
-      obtain ⟨w2, outs, rs2, e2, g2, f2⟩ := ih g1 hc (hnext w1 o e1)
-      refine ⟨w2, o :: outs, rs2, by simp [run, e1, e2], ?_, ?_⟩
+      obtain ⟨w2, outs, e2, g2, f2⟩ := ih g1 hc (hnext w1 o e1)
+      refine ⟨w2, o :: outs, by simp [run, e1, e2], ?_, ?_⟩
       · rw [writesOf_cons]
         simp only [sentOf, failcbsOf]
         rw [← List.append_assoc, ← List.append_assoc, ← Nat.add_assoc]
         exact g2
       · rw [f2, f1, hasFail_cons, Bool.or_assoc]
     · simp at hc
+
+/-- once failed: every allowed continuation sends nothing, calls nothing back and never has a
+transport request outstanding -/
+theorem run_failed (ops : List WOp) : ∀ {w : W} {rs rs' : Option Nat} {wr sent : Bytes} {fails : Nat},
+    Good w rs wr sent fails → w.failed = true → clientRun rs ops = some rs' → transportOK w ops →
+    ∃ w' outs, run w ops = .ok (w', outs) ∧ sentOf outs = [] ∧ failcbsOf outs = 0 ∧
+      w'.failed = true ∧ w'.curr = none := by
+  induction ops with
+  | nil =>
+    intro w rs rs' wr sent fails g hfl _ _
+    exact ⟨w, [], rfl, rfl, rfl, hfl, g.inv.failedIdle hfl⟩
+  | cons op ops ih =>
+    intro w rs rs' wr sent fails g hfl hc ht
+    simp only [clientRun] at hc
+    split at hc
+    · rename_i rs1 hcs
+      obtain ⟨hf, hnext⟩ := ht
+      obtain ⟨w1, o, e1, g1, f1⟩ := step_good g hcs hf
+      have hfl1 : w1.failed = true := by rw [f1, hfl]; rfl
+      -- a failed writer has no outstanding request, so `op` is a call, and calls send nothing
+      have ho : o.sent = [] ∧ o.failcb = false := by
+        cases op with
+        | net ev =>
+          obtain ⟨wb, hcur, _⟩ := hf
+          rw [g.inv.failedIdle hfl] at hcur
+          simp at hcur
+        | reserve n =>
+          simp only [step] at e1
+          cases hres : reserve w n with
+          | ok w' => rw [hres] at e1; simp at e1; simp [← e1.2]
+          | _ => rw [hres] at e1; simp at e1
+        | consume d =>
+          simp only [step] at e1
+          cases hres : consume w d with
+          | ok w' => rw [hres] at e1; simp at e1; simp [← e1.2]
+          | _ => rw [hres] at e1; simp at e1
+        | write d =>
+          simp only [step] at e1
+          cases hres : write w d with
+          | ok w' => rw [hres] at e1; simp at e1; simp [← e1.2]
+          | _ => rw [hres] at e1; simp at e1
+      obtain ⟨w2, outs, e2, s2, c2, f2, cur2⟩ := ih g1 hfl1 hc (hnext w1 o e1)
+      exact ⟨w2, o :: outs, by simp [run, e1, e2], by simp [sentOf, ho.1, s2], by simp [failcbsOf, ho.2, c2], f2, cur2⟩
+    · simp at hc
+
+theorem run_append (o1 o2 : List WOp) : ∀ (w : W),
+    run w (o1 ++ o2) = (do
+      let (w1, outs1) ← run w o1
+      let (w2, outs2) ← run w1 o2
+      pure (w2, outs1 ++ outs2)) := by
+  induction o1 with
+  | nil =>
+    intro w
+    simp only [List.nil_append, run, Res.pure_eq, Res.ok_bind]
+    cases run w o2 <;> rfl
+  | cons op ops ih =>
+    intro w
+    simp only [List.cons_append, run]
+    cases hs : step w op with
+    | ok p =>
+      obtain ⟨w1, o⟩ := p
+      simp only [Res.ok_bind]
+      rw [ih w1]
+      cases run w1 ops with
+      | ok p1 =>
+        obtain ⟨w2, os⟩ := p1
+        simp only [Res.ok_bind, Res.pure_eq]
+        cases run w2 o2 with
+        | ok p2 => simp
+        | _ => rfl
+      | _ => rfl
+    | _ => rfl
+
+theorem clientRun_append (o1 o2 : List WOp) : ∀ (s : Option Nat),
+    clientRun s (o1 ++ o2) = (clientRun s o1).bind (fun s1 => clientRun s1 o2) := by
+  induction o1 with
+  | nil => intro s; rfl
+  | cons op ops ih =>
+    intro s
+    simp only [List.cons_append, clientRun]
+    cases clientStep s op with
+    | none => rfl
+    | some s' => exact ih s'
+
+theorem transportOK_append (o1 o2 : List WOp) : ∀ (w : W), transportOK w (o1 ++ o2) →
+    transportOK w o1 ∧ ∀ w1 outs1, run w o1 = .ok (w1, outs1) → transportOK w1 o2 := by
+  induction o1 with
+  | nil =>
+    intro w h
+    refine ⟨trivial, ?_⟩
+    intro w1 outs1 e
+    simp only [run, Res.pure_eq, Res.ok.injEq, Prod.mk.injEq] at e
+    rw [← e.1]; exact h
+  | cons op ops ih =>
+    intro w h
+    obtain ⟨hf, hnext⟩ := h
+    refine ⟨⟨hf, fun w' o e => (ih w' (hnext w' o e)).1⟩, ?_⟩
+    intro w1 outs1 e
+    simp only [run] at e
+    cases hs : step w op with
+    | ok p =>
+      obtain ⟨w', o⟩ := p
+      rw [hs] at e
+      simp only [Res.ok_bind] at e
+      cases hr : run w' ops with
+      | ok p1 =>
+        obtain ⟨w'', os⟩ := p1
+        rw [hr] at e
+        simp only [Res.ok_bind, Res.pure_eq, Res.ok.injEq, Prod.mk.injEq] at e
+        rw [← e.1]
+        exact (ih w' (hnext w' o hs)).2 w'' os hr
+      | _ => rw [hr] at e; simp at e
+    | _ => rw [hs] at e; simp at e
+
+theorem transportOK_of_b (ops : List WOp) : ∀ (w : W), transportOKb w ops = true → transportOK w ops := by
+  induction ops with
+  | nil => intro _ _; trivial
+  | cons op ops ih =>
+    intro w h
+    simp only [transportOKb, Bool.and_eq_true] at h
+    obtain ⟨hf, hn⟩ := h
+    refine ⟨?_, ?_⟩
+    · cases op with
+      | net ev =>
+        simp only [fitsb] at hf
+        cases hc : w.curr with
+        | none => rw [hc] at hf; simp at hf
+        | some wb =>
+          rw [hc] at hf
+          refine ⟨wb, hc, ?_⟩
+          cases ev <;> simpa using hf
+      | _ => trivial
+    · intro w' o e
+      rw [e] at hn
+      exact ih w' hn
+
+
+/-- for concrete examples: the hypotheses of the property theorems from two evaluations -/
+theorem hyps_of_eval {ops : List WOp} (h1 : (clientRun none ops).isSome = true)
+    (h2 : transportOKb init ops = true) :
+    (∃ rs, clientRun none ops = some rs) ∧ transportOK init ops :=
+  ⟨Option.isSome_iff_exists.1 h1, transportOK_of_b _ _ h2⟩
 
 end Percival.Proofs.NetbufWrite
